@@ -292,6 +292,9 @@ func Evatra(l *WaterSharedVars, g *GlobalVarsMain, hPath *HFilePath, zeit int) {
 		if VERDU[g.TAG.Index] > 0.65 {
 			VERDU[g.TAG.Index] = 0.65
 		}
+		if VERDU[g.TAG.Index] < 0 {
+			VERDU[g.TAG.Index] = 0
+		}
 		// ! Aufteilung ETp in Ep und Tp abh. von LAI (aus Pflanzenmodell)
 		EVMAX = VERDU[g.TAG.Index] * math.Exp(-.5*g.LAI) // g.LAI may be 0, in the first run
 		TRAMAX = VERDU[g.TAG.Index] - EVMAX
@@ -459,6 +462,9 @@ func Evatra(l *WaterSharedVars, g *GlobalVarsMain, hPath *HFilePath, zeit int) {
 		}
 		if VERDU[g.TAG.Index] > 0.6 {
 			VERDU[g.TAG.Index] = 0.6
+		}
+		if VERDU[g.TAG.Index] < 0 {
+			VERDU[g.TAG.Index] = 0
 		}
 
 		EVMAX = VERDU[g.TAG.Index]
